@@ -38,7 +38,7 @@ def cases(tier):
         out.append({"name": f"generator/k{k}", "kind": "generator", "k": k, "K": 3 if tier == "quick" else 4})
         out.append({"name": f"generate/k{k}", "kind": "single", "k": k})
     # the same system object iterated again after an earlier, abandoned or completed, use of it
-    for pre in ("partial", "complete", "single-generate", "interleaved-generate"):
+    for pre in ("partial", "complete", "single-generate", "interleaved-generate", "peek-then-continue"):
         out.append({"name": f"generator-after-{pre}/k2", "kind": "generator", "k": 2, "K": 2 if tier == "quick" else 3, "pre": pre})
     out.append({"name": "non-generable", "kind": "nongen"})
     out.append({"name": "real-components", "kind": "real"})
@@ -71,7 +71,7 @@ def _prepare(c, g, k):
     log = {"generated": [], "order": []}
 
     def make_stub(i, mol):
-        def gen(prefix=None, rng=None):
+        def gen(prefix=None, rng=None, **_more):
             if len(log["generated"]) >= 7:
                 # unwinding bound: S <= K * 10 (K <= 4) and every molecule weighs at least 10, and the histories generate at most
                 # 3 molecules before: no run needs more than 7 molecules
@@ -89,13 +89,33 @@ def _prepare(c, g, k):
     return system, S, fr, log
 
 
+def _iteration(system, pre):
+    """the judged iteration over the ensemble; 'peek-then-continue': the first molecule is taken with next(), the rest with a for
+    loop over the SAME object (for an iterator, iter(it) is it: nothing may start over)"""
+    src = system.generator
+    if pre != "peek-then-continue":
+        return src
+    it = src if hasattr(src, "__next__") else iter(src)
+    try:
+        first = next(it)
+    except StopIteration:
+        return iter(())
+
+    def rest():
+        yield first
+        for m in it:
+            yield m
+
+    return rest()
+
+
 def _bounded_generate(system, limit=8):
     """the components' real generate, counted: no bounded iteration needs more than `limit` molecules (unwinding bound)"""
     count = [0]
     for mol in system._molecules:
         orig = mol.generate
 
-        def gen(prefix=None, rng=None, _orig=orig):
+        def gen(prefix=None, rng=None, _orig=orig, **_more):
             count[0] += 1
             if count[0] > limit:
                 raise core.emulated(RuntimeError(f"unwinding bound: more than {limit} molecules generated"))
@@ -129,7 +149,7 @@ def run_case(case, g, tier, res):
             if pre:
                 # history on the same System object before the iteration that is judged
                 try:
-                    if pre == "interleaved-generate":
+                    if pre in ("interleaved-generate", "peek-then-continue"):
                         pass
                     elif pre == "partial":
                         it0 = iter(system.generator)
@@ -153,7 +173,7 @@ def run_case(case, g, tier, res):
                             "picks": str([r.index for r in rng.calls]), **{f"f{i}": f for i, f in enumerate(fr)}}
             inter = []  # molecules produced by single generations interleaved with the iteration (not part of it)
             try:
-                for m in system.generator:
+                for m in _iteration(system, pre):
                     yielded.append(m)
                     c.prove(len(yielded) <= K, "unwinding bound", detail("more molecules than S / m_lo", info))
                     if pre == "interleaved-generate" and len(yielded) == 1:
@@ -434,7 +454,7 @@ def replay(rp, gb):
             elif pre == "complete":
                 for _m in system.generator:
                     pass
-            elif pre and pre != "interleaved-generate":
+            elif pre and pre not in ("interleaved-generate", "peek-then-continue"):
                 system.generate(rng=rng)
         except (ReplayDone, RuntimeError) as e:
             return False, f"history could not be replayed: {type(e).__name__}"
@@ -443,7 +463,7 @@ def replay(rp, gb):
         gen_all = gen
         out, exc, inter = [], None, []
         try:
-            for m in system.generator:
+            for m in _iteration(system, pre):
                 out.append(m)
                 if len(out) > 50:
                     break
